@@ -158,6 +158,7 @@ fn fn_facts<'tcx>(
     obj! {
         "path": J::s(path),
         "def_path": J::s(def_path),
+        "dp": J::s(mir_dump::abs_path(tcx, did)),
         "kind": J::s(kind_s),
         "parent": parent,
         "file": J::s(file),
